@@ -1,10 +1,14 @@
 import Qats.Lemmas.PipelineMain
+import Qats.Lemmas.SmoothMain
 /-!
 # C11 — the processing pipeline means what its options say
 
 Property theorems only, over any linearly ordered field (exact arithmetic). Tapering, filtering and smoothing are abstract
 stage functions: the theorems fix *where*, *in which order* and *with which sampling interval* they are applied; the
 correspondence check instantiates them with non-commuting tag functions on both sides. Float grids are searched (F7, fixed).
+The two stages written in qats itself — the Tukey taper about the mean and the moving-average smoothing — are also modelled
+concretely (`Qats.Smooth`, executed against `qats.signal.taper` / `smooth` / `TimeSeries.get`), which discharges the
+length hypothesis of `get_equal_length` for them (`get_equal_length_concrete`).
 -/
 namespace Qats.Props.C11
 open Qats Qats.Pipeline
@@ -105,6 +109,65 @@ theorem resample_step_inside [FloorRing α] (t x : List α) (hl : t.length = x.l
     ∃ xs, resampleStep t x d (Nat.ceil ((hi - lo) / d)) = some xs ∧ xs.length = Nat.ceil ((hi - lo) / d) :=
   resample_step_inside' t x hl ht lo hi d hlo hhi hd hdur
 
+
+/-! ## the stages written in qats itself: Tukey taper about the mean, moving-average smoothing -/
+
+/-- Smoothing returns as many samples as it is given (any window weights, odd or even window length). -/
+theorem smooth_keeps_length (w x y : List α) (h : Qats.Smooth.smooth w x = .ok y) : y.length = x.length :=
+  Qats.Smooth.smooth_length' w x y h
+
+/-- A signal shorter than the window — or, for windows of three samples and more, exactly as long (the reflected copy in
+front needs one sample beyond the window; F53) — is rejected; windows of fewer than three samples leave the signal unchanged. -/
+theorem smooth_rejects_short (w x : List α) :
+    ((x.length < w.length ∨ (3 ≤ w.length ∧ x.length = w.length)) → Qats.Smooth.smooth w x = .error .tooShort) ∧
+    (w.length ≤ x.length → w.length < 3 → Qats.Smooth.smooth w x = .ok x) :=
+  ⟨Qats.Smooth.smooth_short' w x, Qats.Smooth.smooth_small_window' w x⟩
+
+/-- The moving average (any window with non-zero weight sum) of a constant signal is that constant: smoothing adds no
+offset and the point-reflected end extension does not disturb a constant level. -/
+theorem smooth_constant (w : List α) (hw : Qats.Smooth.sum w ≠ 0) (h3 : 3 ≤ w.length) (n : Nat) (hn : w.length < n) (c : α) :
+    Qats.Smooth.smooth w (List.replicate n c) = .ok (List.replicate n c) :=
+  Qats.Smooth.smooth_const' w hw h3 n hn c
+
+/-- The tapering stage keeps the length, and every sample on the flat part of the Tukey window
+(`α·n/2 ≤ i ≤ n·(1 − α/2)`) passes it unchanged — whatever the mean level. -/
+theorem taper_stage_spec [TranscOps α] (alpha : α) (x : List α) :
+    (Qats.Smooth.taperStage alpha x).length = x.length ∧
+    ∀ (i : Nat) (xi : α), x[i]? = some xi → alpha * (x.length : α) / 2 ≤ (i : α) → (i : α) ≤ (x.length : α) * (1 - alpha / 2) →
+      (Qats.Smooth.taperStage alpha x)[i]? = some xi :=
+  ⟨Qats.Smooth.taperStage_length' alpha x, fun i xi hx h1 h2 => Qats.Smooth.taperStage_flat' alpha x i xi hx h1 h2⟩
+
+/-- Over the reals every Tukey weight lies in `[0, 1]`: tapering never amplifies the fluctuation about the mean. -/
+theorem tukey_weight_range (alpha : ℝ) (n i : Nat) :
+    0 ≤ Qats.Smooth.tukeyWeight alpha n i ∧ Qats.Smooth.tukeyWeight alpha n i ≤ 1 :=
+  Qats.Smooth.tukeyWeight_range' alpha n i
+
+/-- The stages as the code itself implements them (the filter stays a parameter: it is scipy's, C12). A smoothing that
+rejects its input makes `get` raise; as a total stage function it is the identity there. -/
+def concreteStages [TranscOps α] (alpha : α) (w : List α) (filter : α → List α → List α) : Stages α :=
+  { taper := Qats.Smooth.taperStage alpha,
+    filter := filter,
+    smooth := fun v => match Qats.Smooth.smooth w v with
+      | .ok y => y
+      | .error _ => v }
+
+/-- Time and data have equal length with the code's own taper and smoothing, for every window length and weight list
+and every length-preserving filter: the hypothesis of `get_equal_length` on these two stages is a theorem. -/
+theorem get_equal_length_concrete [TranscOps α] (rnd : α → Int) (alpha : α) (w : List α) (filter : α → List α → List α)
+    (hf : ∀ dt v, (filter dt v).length = v.length) (t x : List α) (o : Opts α) (hl : t.length = x.length)
+    (t' x' : List α) (h : get rnd (concreteStages alpha w filter) t x o = .ok (t', x')) : t'.length = x'.length := by
+  refine get_equal_length rnd (concreteStages alpha w filter) t x o hl ⟨?_, hf, ?_⟩ t' x' h
+  · intro v; exact Qats.Smooth.taperStage_length' alpha v
+  · intro v
+    show (match Qats.Smooth.smooth w v with | .ok y => y | .error _ => v).length = v.length
+    cases hs : Qats.Smooth.smooth w v with
+    | ok y => exact Qats.Smooth.smooth_length' w v y hs
+    | error e => rfl
+
+/-- Non-vacuity / regression (F53): a moving average over 4 samples (even window) of 0, 1, 4, 9, 16 keeps five samples;
+a window as long as the signal is rejected. -/
+example : (Qats.Smooth.smooth [1, 1, 1, 1] ([0, 1, 4, 9, 16] : List Rat)).toOption.map List.length = some 5 ∧
+    Qats.Smooth.smooth [1, 1, 1, 1, 1] ([0, 1, 4, 9, 16] : List Rat) = .error .tooShort := by decide +kernel
 
 /-- Non-vacuity: window, taper (+1) and filter (2x + dt) on a quadratic sampled at 0..4; dt seen by the filter is 1. -/
 example : get (fun _ => 0) ⟨fun x => x.map (· + 1), fun dt x => x.map fun v => 2 * v + dt, id⟩
